@@ -254,14 +254,7 @@ class Machine:
         else:
           align = 1 << op[2]
           a, b = size, align
-        if self.variant == 'asan' and kind == 'arena' and pa0 + ((-pa0) % align) + size >= 2 ** 64:
-          labels.add('skipped-in-asan:huge-size-wrap')      # same known finding, arena side (aborts the ASan runtime)
-          continue
-        if self.variant == 'asan' and kind in ('byte', 'info') and 0 < 2 ** 64 - size <= 64 + align:
-          # known finding (huge-size wrap): in the ASan build the wrapped request reaches ASAN_UNPOISON with an inverted
-          # range and the sanitizer runtime aborts; judged on the release build only
-          labels.add('skipped-in-asan:huge-size-wrap')
-          continue
+        # (sizes whose arithmetic wrapped used to abort the ASan runtime; repaired by fix fc2bb68af, so they are judged in both builds)
         rc = h.c19_op(d.ptr, OPCODE[kind], a, b, C.byref(r))
         ps1, pb1, pa1, p = int(r.pstack), int(r.pbase), int(r.parena), int(r.ptr)
         labels.add('align=%d' % align)
